@@ -48,6 +48,13 @@ def run(ctx):
     R7 = ctx.rule('C10.R7', 'messenger::transmit returns normally only after the request was written and the reply read on the same connection (a reconnect re-sends or throws, never drops the request)')
 
     # ---------------- R1
+    # result codes of tcp_cache::fetch (static const int members): name -> value, read off any constant-evaluated reference
+    ENUMV = {}
+    for f_ in P.fns.values():
+        for n_ in f_.nodes:
+            r_ = n_.get('ref') or ''
+            if n_['k'] == 'DeclRefExpr' and 'tcp_cache::' in r_ and 'cv' in n_:
+                ENUMV.setdefault(r_.rsplit('::', 1)[-1], n_['cv'])
     fe = P.fn(OI + '::fetch')
     keyp = q.param_by_index(fe, 0)
     genp = q.param_by_index(fe, 4)
@@ -80,7 +87,11 @@ def run(ctx):
         def res_is(name, want):
             def p(atom, pol):
                 n = fe.N(atom)
-                if n['k'] != 'BinaryOperator' or n.get('op') not in ('==', '!=') or fe.ref_of(n['ch'][0]) != resv or not any(x.endswith('tcp_cache::' + name) for x in fe.subtree_refs(n['ch'][1])):
+                if n['k'] != 'BinaryOperator' or n.get('op') not in ('==', '!=') or not ((resv is not None and fe.ref_of(n['ch'][0]) == resv) or fe.strip(n['ch'][0]) == i):
+                    return False
+                named = any(x.endswith('tcp_cache::' + name) for x in fe.subtree_refs(n['ch'][1]))
+                byval = ENUMV.get(name) is not None and fe.const_value(n['ch'][1]) == ENUMV.get(name)      # `case up_to_date:` of a switch over the result
+                if not (named or byval):
                     return False
                 return (pol is want) if n['op'] == '==' else (pol is (not want))
             return fe.gate_edges(p)
@@ -250,6 +261,7 @@ def run(ctx):
     wr = [i for i in tm.calls() if (tm.bcallee(i) or '').endswith('stream_socket::write')]
     rd = [i for i in tm.calls() if (tm.bcallee(i) or '').endswith('stream_socket::read')]
     ctx.require(wr and rd, 'C10.R7: messenger::transmit does not write / read the socket')
+    # an optional completion flag: a bool local that becomes true only after the request was written and the reply header read
     flags = {}
     for i in tm.all_nodes():
         n = tm.N(i)
@@ -257,15 +269,19 @@ def run(ctx):
             flags.setdefault(tm.ref_of(n['ch'][0]), []).append(i)
     done = [v for v, ws in flags.items() if all(q.before(tm, wr[0], w) and q.before(tm, rd[0], w) for w in ws) and
             all(v_ is None or tm.const_value(v_) in (0, 1) for (_, v_) in tm.defs_of_var(v))]
-    ctx.check(len(done) == 1, R7, 'transmit:completion-flag', 'no flag that is set only after the request was written and the reply header read', tm.where)
-    if len(done) == 1:
-        dv = done[0]
-        g_done = tm.gate_edges(lambda atom, pol: tm.N(atom)['k'] == 'DeclRefExpr' and tm.N(atom).get('ref') == dv and pol is True)
-        # the edge try-dispatch -> EXIT is an exception leaving the function, not a normal return
-        reach = tm.reachable_blocks(cut_edges=list(g_done) + [(b, tm.exit) for b in tm.try_blocks], cut_blocks=tm.abnormal_blocks())
-        ctx.check(bool(g_done) and tm.exit not in reach, R7, 'transmit:normal-return-only-when-exchange-complete', 'transmit can return without an exception although the request was not (re)sent and answered', tm.where)
-        # the reply body is read whenever the reply header announces one, before the flag is set
-        ctx.check(len(rd) >= 2 and all(q.before(tm, rd[0], r) for r in rd[1:]), R7, 'transmit:reply-header-then-body', 'reply body is not read after the reply header', tm.where)
+    g_done = []
+    for dv in done:
+        g_done += [e for e in tm.gate_edges(lambda atom, pol, dv=dv: tm.N(atom)['k'] == 'DeclRefExpr' and tm.N(atom).get('ref') == dv and pol is True) if len(e) == 4]
+    # normal exit (not an exception leaving the function) is reachable neither from the entry nor from a reconnect without
+    # passing the write and the read of the reply - edges that are taken only when the completion flag is set count as "after the read"
+    exc_edges = [(b_, tm.exit) for b_ in tm.try_blocks]
+    cn_ = [i for i in tm.calls() if (tm.bcallee(i) or '').endswith('::connect')]
+    starts = [('entry', tm.entry)] + [('reconnect@L%d' % tm.N(i)['l'], tm.point_of(i)[0]) for i in cn_ if tm.point_of(i)]
+    for nm, b0 in starts:
+        for what, evs in (('written', wr), ('answered', rd[:1])):
+            reach = tm.reachable_blocks(start=b0, cut_edges=g_done + exc_edges, cut_blocks=(q.blocks_of(tm, evs) | tm.abnormal_blocks()) - {b0})
+            ctx.check(tm.exit not in reach, R7, 'transmit:from-%s:normal-return-only-after-request-%s' % (nm, what), 'transmit can return without an exception although the request was not (re)sent and answered', tm.where)
+    ctx.check(len(rd) >= 2 and all(q.before(tm, rd[0], r) for r in rd[1:]), R7, 'transmit:reply-header-then-body', 'reply body is not read after the reply header', tm.where)
     cl = [i for i in tm.calls() if (tm.bcallee(i) or '').endswith('::close')]
     cn = [i for i in tm.calls() if (tm.bcallee(i) or '').endswith('::connect')]
     ctx.check(bool(cl) and bool(cn) and all(any(tm.N(a)['k'] == 'CXXCatchStmt' for a in tm.ancestors(i)) for i in cl + cn), R7, 'transmit:reconnect-only-in-failure-handler', 'connection is reopened outside the failure handler', tm.where)
